@@ -9,7 +9,7 @@ import (
 func init() {
 	register(&Check{
 		ID: "C11", Level: "exploration", QuickSecs: 150, ThoroughSecs: 1200,
-		Rule:        "skeletons over {'a',.,&{},!{},#{},A} x {?,*,&,!} x seq/choice up to N nodes (quick 4, thorough 5) under a rule-level action, second rule A with a display name and its own action; a rule attribute family (three rules with blocks, every assignment of display names x both definition orders of the called rules x 3 call shapes: in sequence, as alternatives erring at the same position and depth, under a predicate and again); every fault script giving each block one of {ok, error e<id>, error with a message shared by all blocks, panic(error), panic(string)} with at most 3 faulting blocks, for code predicates both the matching and the failing result; inputs over {a,b} up to L=2; Recover(true)/Recover(false) x filename empty/non-empty; 2 generation flag sets; plus left-recursive rules (direct, tower, indirect pair) generated with -support-left-recursion with the same fault scripts. Compared with the reference: value, complete error list (text incl. file:line:col (offset): rule prefix, order, de-duplication by message), dynamic type errList of *parserError, Inner pointer-identical to the scripted error, panic containment vs propagation. Non-trivial = at least two recorded errors or a panic.",
+		Rule:        "skeletons over {'a',.,&{},!{},#{},A} x {?,*,&,!} x seq/choice up to N nodes (quick 4, thorough 5) under a rule-level action, second rule A with a display name and its own action; a rule attribute family (three rules with blocks, every assignment of display names x both definition orders of the called rules x 3 call shapes: in sequence, as alternatives erring at the same position and depth, under a predicate and again); every fault script giving each block one of {ok, error e<id>, error with a message shared by all blocks, panic(error), panic(string)} with at most 3 faulting blocks, for code predicates both the matching and the failing result; inputs over {a,b} up to L=2; Recover(true)/Recover(false) x filename empty/non-empty; 2 generation flag sets; plus left-recursive rules (direct, tower, indirect pair) generated with -support-left-recursion with the same fault scripts. Compared with the reference: value, complete error list (text incl. file:line:col (offset): rule prefix, order, de-duplication by message), dynamic type errList of *parserError, Inner pointer-identical to the scripted error, panic containment vs propagation. Non-trivial = at least two recorded errors or a panic. Plus the cross family (cross.go, bodies <= 3 nodes x 16 flag sets, every block in turn failing, invalid-byte inputs, a terminal-only rule with display name).",
 		Assumptions: []string{"E1 loader", "scripted probes as code blocks"},
 		Run:         runC11,
 	})
